@@ -1114,14 +1114,16 @@ func (d decomposed192) sub1(trunc int8) (bool, decomposed192, int8) {
 		return true, decomposed192{
 			sig: uint192{1, 0, 0},
 			exp: 0,
-		}, trunc
+		}, -trunc
 	}
 
+	// In the cases below d is positive but too small to change the digits of
+	// the result: the magnitude of d - 1 is 1 less a little.
 	if d.exp < -116 {
 		return true, decomposed192{
 			sig: uint192{1, 0, 0},
 			exp: 0,
-		}, 1
+		}, -1
 	}
 
 	if d.exp > 58 {
@@ -1143,7 +1145,7 @@ func (d decomposed192) sub1(trunc int8) (bool, decomposed192, int8) {
 				return true, decomposed192{
 					sig: uint192{1, 0, 0},
 					exp: 0,
-				}, trunc
+				}, -1
 			}
 
 			d.exp += 4
@@ -1161,7 +1163,7 @@ func (d decomposed192) sub1(trunc int8) (bool, decomposed192, int8) {
 				return true, decomposed192{
 					sig: uint192{1, 0, 0},
 					exp: 0,
-				}, trunc
+				}, -1
 			}
 		}
 
